@@ -115,6 +115,7 @@ func runCase(c *fw.Ctx, data []byte) {
 		c.Inconclusive(err.Error())
 		return
 	}
+	hcMismatch.Store(0)
 	nt := newNotes(cs.NIdx)
 	sites := map[string]bool{"store.precommit.beforeLock": true, "store.checkPreconditions": true,
 		"indexer.indexSince.afterReadTx": true, "indexer.indexSince.beforeInsert": true}
@@ -143,7 +144,7 @@ func runCase(c *fw.Ctx, data []byte) {
 	for round := 0; round < cs.Rounds && !rn.abort; round++ {
 		rn.round(round)
 	}
-	c.Count("revision_count_differs", hcMismatch.Load())
+	c.Count("comparisons_with_right_version_but_other_revision_count", hcMismatch.Load())
 	hits := h.Hits()
 	hm := map[string]uint64{}
 	for k, v := range hits {
@@ -568,6 +569,9 @@ func (rn *runner) reportRead(tl *txLog, i int, d string, own map[string]ownEntry
 		}
 		if ol.Op.K == "prefix" && ol.Ref != nil && ol.Ref.Tx == 0 {
 			sig = "rw-committed/stale-read/getwithprefix-answered-by-own-write"
+		}
+		if ol.Op.K == "scan" && strings.Contains(d, "reader returned key") && strings.Contains(d, " {tx=0 ") {
+			sig = "rw-committed/stale-read/reader-row-answered-by-own-write"
 		}
 	}
 	_ = kind
